@@ -260,6 +260,12 @@ class StmtMixin:
         exc = []
         outs = []
         for s2, c in self.ev_cond(s.test, st, exc):
+            if c.s not in ("true", "false") and not self.contract.merge:
+                # prune branches the path condition already decides (in-process, 'unsat' only)
+                if self.entails(s2, c, ms=100):
+                    c = smt.TRUE
+                elif self.entails(s2, smt.Not(c), ms=100):
+                    c = smt.FALSE
             if c.s != "false":
                 outs += self.exec_block(s.body, self.narrow(s.test, s2.copy().assume(c), True))
             if c.s != "true":
